@@ -1051,3 +1051,7 @@ func ruleNILFIELD(c *Ctx) {
 		c.fail("nilfield/count", nil, fmt.Sprintf("expected >= 3 construction sites of dereferenced fields, found %d", n))
 	}
 }
+
+func (w *World) inModulePkg(pk *types.Package) bool {
+	return pk != nil && (pk.Path() == w.ModPath || strings.HasPrefix(pk.Path(), w.ModPath+"/"))
+}
